@@ -36,7 +36,7 @@ RED = {
 }
 
 AXES = ["sample", "observation", "whole"]
-ACCESSORS = ["nnz", "density", "repr", "queries", "nonzero", "stats", "report", "frames", "mdframes", "head"]
+ACCESSORS = ["nnz", "density", "repr", "queries", "nonzero", "stats", "report", "frames", "mdframes", "head", "render"]
 PROFILES = [None, None, None, {"empty": "raise"}, {"all": "warn"}, {"all": "raise"}, {"empty": "call"}]
 ZERO_RULES = ["even-pos", "odd-pos", "below-3", "first", "all-but-first", "above-mean"]
 
@@ -233,6 +233,16 @@ def enrich_md(rng, spec, axes=("obs", "samp"), classes=None):
     return spec
 
 
+def homogeneous(md):
+    """every ID of the axis carries the same categories in the same order, list-valued ones with the same length (the
+    domain of the metadata frame)"""
+    if md is None or len(md) == 0:
+        return True
+    shape = lambda m: [(k, len(v) if isinstance(v, (list, tuple)) else -1) for k, v in m.items()]   # noqa
+    first = shape(md[0])
+    return all(shape(m) == first for m in md)
+
+
 def canon_json(v):
     import json
     return json.dumps(core.canon_value(v), sort_keys=True, ensure_ascii=False)
@@ -271,8 +281,9 @@ def parse_report(text):
                        ("std", " Std. dev.: ")]:
         out[key] = parse_num(after(lines[i], label))
         i += 1
-    out["samp_keys"] = after(lines[i], " Sample Metadata Categories: ").split("; ")
-    out["obs_keys"] = after(lines[i + 1], " Observation Metadata Categories: ").split("; ")
+    keys = lambda text: text.split("; ") if text else []          # noqa (a first entry without categories prints nothing)
+    out["samp_keys"] = keys(after(lines[i], " Sample Metadata Categories: "))
+    out["obs_keys"] = keys(after(lines[i + 1], " Observation Metadata Categories: "))
     assert lines[i + 2] == ""
     out["detail_title"] = lines[i + 3]
     detail = []
@@ -317,6 +328,8 @@ class Files:
         import h5py
         self.k += 1
         p = os.path.join(TMP, "table.biom")          # the same path is re-used for HDF5 and JSON content
+        if fmt == "hdf5" and not (homogeneous(t.metadata(axis="sample")) and homogeneous(t.metadata(axis="observation"))):
+            fmt = "json"                              # to_hdf5 refuses a partially annotated axis (by design)
         if fmt == "hdf5":
             with h5py.File(p, "w") as f:
                 t.to_hdf5(f, "c19")
@@ -354,6 +367,11 @@ def cli(args):
 
 
 # ----------------------------------------------------------------------------- checks
+def core_driver_errors():
+    """failures of the machinery itself (driver died, unknown accessor): never to be reported as a finding"""
+    return (RuntimeError, KeyboardInterrupt, AssertionError)
+
+
 class Checker:
     def __init__(self, ctx):
         self.ctx = ctx
@@ -457,9 +475,16 @@ class Checker:
         for q in quals:
             for o in (False, True):
                 if via == "api":
-                    with warnings.catch_warnings():
-                        warnings.simplefilter("ignore")
-                        text = _summarize_table(t, qualitative=q, observations=o)
+                    try:
+                        with warnings.catch_warnings():
+                            warnings.simplefilter("ignore")
+                            text = _summarize_table(t, qualitative=q, observations=o)
+                    except Exception as e:  # noqa
+                        self.ctx.case({"check": "report", "tag": tag, "q": q, "o": o, "raised": True}, nontrivial=True)
+                        self.ctx.fail({"check": "report", "tag": tag, "table": inp["table"], "qualitative": q,
+                                       "observations": o, "error": "%s: %s" % (type(e).__name__, e),
+                                       "recipe": self.recipe}, "report raised", list(tags) + [type(e).__name__])
+                        continue
                 else:
                     fp = self.files.write(t, via)
                     out = os.path.join(TMP, "summary.txt")
@@ -537,6 +562,29 @@ class Checker:
         elif not r["agree"] and "ok" in res:
             self.ctx.diverge({"check": "head-api", "tag": tag, "n": n, "m": m}, "head differs from the model", tags)
 
+    def render(self, t, inp, tag, tags, rng=None):
+        """the whole table as delimited text (str(table), to_tsv with its rarely used arguments): every ID and every value
+        shown is the table's, judged as `head` with n, m = the table's shape"""
+        n, m = t.shape
+        if n == 0 or m == 0:
+            return                                   # nothing can be printed (the method refuses)
+        hows = [("str", lambda: str(t)), ("to_tsv", lambda: t.to_tsv())]
+        if rng is not None:
+            def via_io():
+                buf = io.StringIO()
+                t.to_tsv(direct_io=buf)
+                return buf.getvalue()
+            hows = [rng.choice(hows + [("to_tsv-direct_io", via_io),
+                                       ("to_tsv-colname", lambda: t.to_tsv(observation_column_name="#Obs%ID"))])]
+        for how, mk in hows:
+            try:
+                res = {"ok": parse_tsv_table(mk())}
+            except Exception as e:  # noqa
+                res = {"error": core.err_name(e)}
+            self.ctx.count("render=%s/%s" % (how, "ok" if "ok" in res else res["error"]))
+            self.ask({"op": "head", "table": inp["table"], "n": n, "m": m, "result": res},
+                     {"check": "render", "how": how, "tag": tag}, tags, nt=nontrivial(inp["table"]))
+
     def frames(self, t, inp, tag, tags):
         import numpy as np
         for sparse in (False, True):
@@ -554,6 +602,9 @@ class Checker:
 
     def mdframes(self, t, inp, tag, tags):
         for axis in ("sample", "observation"):
+            if not homogeneous(t.metadata(axis=axis)):
+                self.ctx.count("mdframe=skipped-partially-annotated")
+                continue
             ids = [str(x) for x in t.ids(axis=axis)]
             md = md_entries(t, axis, canon_typed)
             try:
@@ -589,6 +640,9 @@ class Checker:
                     self.ctx.fail({"check": "export-metadata", "tag": tag, "recipe": self.recipe},
                                   "export-metadata wrote a file that was not asked for", list(tags) + [axis])
                 continue
+            if not homogeneous(seen.metadata(axis=axis)):
+                self.ctx.count("export-metadata=skipped-partially-annotated")
+                continue
             ids = [str(x) for x in t.ids(axis=axis)]
             md = md_entries(seen, axis, canon_str)
             if (md is None) != (t.metadata(axis=axis) is None) or (
@@ -620,6 +674,18 @@ class Checker:
         summary is asked, then the content is read again (reads must not change it)"""
         inp = input_obs(t)
         gtag = "%s:%s" % (tag, name)
+        try:
+            self._dispatch(t, inp, name, gtag, tags, rng, exact)
+        except core_driver_errors():
+            raise
+        except Exception as e:  # noqa  a summary of a legitimate table that raises reports nothing at all
+            self.ctx.case({"check": name, "tag": gtag, "raised": True}, nontrivial=True)
+            self.ctx.fail({"check": name, "tag": gtag, "table": inp["table"], "error": "%s: %s" % (type(e).__name__, e),
+                           "recipe": self.recipe}, "%s raised" % name.split("-")[0], list(tags) + [type(e).__name__])
+        self.unchanged(t, inp["table"], name, gtag, tags)
+        return inp
+
+    def _dispatch(self, t, inp, name, gtag, tags, rng, exact):
         if name in ("nnz", "density"):
             self.queries(t, inp, gtag, tags, only=[name])
         elif name.startswith("q-"):
@@ -638,17 +704,17 @@ class Checker:
             self.frames(t, inp, gtag, tags)
         elif name == "mdframes":
             self.mdframes(t, inp, gtag, tags)
+        elif name == "render":
+            self.render(t, inp, gtag, tags, rng)
         elif name == "head":
             if rng is None or rng.random() < 0.2:
                 self.head_api(t, inp, gtag, tags, None, None)
             else:
                 self.head_api(t, inp, gtag, tags, rng.choice([-1, 0, 1, 2, 3, 9]), rng.choice([1, 1, 2, 4, 9, 70]))
         else:
-            raise ValueError(name)
-        self.unchanged(t, inp["table"], name, gtag, tags)
-        return inp
+            raise RuntimeError("unknown accessor group " + name)
 
-    def all_api(self, t, tag, tags, seed=None):
+    def all_api(self, t, tag, tags, seed=None, exact=True):
         """every accessor group once.  seed=None: the fixed order (nonzero first, on the layout exactly as built);
         otherwise: random order, a random layout left behind by read-only calls before a share of the groups
         (core.poke_layout), a share under a non-default error profile"""
@@ -658,10 +724,10 @@ class Checker:
         lf = core.layout_facts(t)
         self.ctx.count("layout=%s/%s" % (lf.get("format"), "sorted" if lf.get("sorted", True) else "unsorted"))
         self.ctx.count("shape=%s" % ("non-square" if asym(inp["table"]) else "square"))
-        groups = ["nonzero", "queries", "repr", "stats", "report", "frames", "mdframes"]
+        groups = ["nonzero", "queries", "repr", "stats", "report", "frames", "mdframes", "render"]
         if seed is None:
             for g in groups:
-                self.group(t, g, tag, tags)
+                self.group(t, g, tag, tags, exact=exact)
             return inp
         rng = random.Random(seed)
         groups.append("head")
@@ -674,12 +740,12 @@ class Checker:
                     self.ctx.count("poke=%s" % c)
             self.ctx.count("layout-at-call=%s" % t.matrix_data.getformat())
             if profile is None:
-                self.group(t, g, tag, tags, rng)
+                self.group(t, g, tag, tags, rng, exact=exact)
             else:
                 with warnings.catch_warnings():
                     warnings.simplefilter("ignore")
                     with biom.err.errstate(**profile):
-                        self.group(t, g, tag, tags, rng)
+                        self.group(t, g, tag, tags, rng, exact=exact)
         return inp
 
     # ------------------------------------------------------------------ histories
@@ -717,7 +783,8 @@ class Checker:
             self.access(t, probe, tag + ":probe", tags, rng)
         fmt = t.matrix_data.getformat()
         # the change
-        changes = ["zero", "zero", "zero", "zero", "pa", "filter", "update_ids", "scale", "del_md", "add_md", "md_mutate"]
+        changes = ["zero", "zero", "zero", "zero", "pa", "filter", "update_ids", "scale", "del_md", "add_md", "md_mutate",
+                   "rotate_ids", "group_md"]
         if dense0.size and (dense0 >= 0).all():
             changes.append("norm")
         change = script.get("change") or rng.choice(changes)
@@ -744,6 +811,12 @@ class Checker:
         elif change == "norm":
             t.norm(axis=axis, inplace=True)
             exact = False
+        elif change == "rotate_ids":
+            ids = list(t.ids(axis=axis))
+            # every ID takes the place of its neighbour: lookups shared with derived tables must not follow
+            t.update_ids({ids[i]: ids[(i + 1) % len(ids)] for i in range(len(ids))}, axis=axis, inplace=True)
+        elif change == "group_md":
+            t.add_group_metadata({"tree": ("newick", "(a,b);")}, axis=axis)
         elif change == "del_md":
             md = t.metadata(axis=axis)
             if md is not None and len(md) and len(md[0]):
@@ -784,7 +857,11 @@ class Checker:
             src = core.table_obs(t)
             if d.shape[0] and d.shape[1]:
                 d.transform(zero_rule(rng.choice(ZERO_RULES)), axis=rng.choice(["observation", "sample"]), inplace=True)
-                d.update_ids({i: "%s_zz" % i for i in d.ids()}, inplace=True)
+                dids = list(d.ids())
+                if rng.random() < 0.5 and len(dids) >= 2:
+                    d.update_ids({dids[i]: dids[(i + 1) % len(dids)] for i in range(len(dids))}, inplace=True)
+                else:
+                    d.update_ids({i: "%s_zz" % i for i in dids}, inplace=True)
             derived[dname] = (d, core.table_obs(d))
             self.unchanged(t, src, "alias:change-of-derived-" + dname, tag, htags + ("alias",))
             self.still(derived, {}, tag + ":after-derived-change", htags)
@@ -813,7 +890,7 @@ class Checker:
             x = mk()
             exports[name] = (x, self.snap(x))
         for axis in ("sample", "observation"):
-            if t.metadata(axis=axis) is not None:
+            if t.metadata(axis=axis) is not None and homogeneous(t.metadata(axis=axis)):
                 x = t.metadata_to_dataframe(axis)
                 exports["mdframe-" + axis] = (x, self.snap(x))
         return derived, exports
@@ -875,6 +952,12 @@ def fixed_corpus():
         [{"barcode": "0012", "well": "1e3", "n": 3, "ok": True}, {"barcode": "007", "well": "5.10", "n": 4, "ok": False}],
         [{"plate": "00", "dose": "+3", "taxonomy": ["01", "2e1"]}, {"plate": "-0", "dose": ".5", "taxonomy": ["1", "3."]},
          {"plate": "10", "dose": " 5", "taxonomy": ["007", "1E-2"]}])))
+    na = ["50%", "x%%y", "otu_%s", "%(id)s", "\"quoted\" start", "ls\u2028x", "#hash", " lead", "caf\u00e9", "cafe\u0301"]
+    nb = ["x%%y", "50%", "\"unbalanced", "a'b", "ps\u2029x", "nel\u0085x", "ff\x0cx", "vt\x0bx", "{brace}", "back\\slash",
+          "trail ", "\u03a9hm", "\u2126hm"]
+    out.append(("nasty-ids", lambda: Table(np.arange(1.0, len(na) * len(nb) + 1).reshape(len(na), len(nb)) % 7, na, nb,
+                                            [{"k%": "v%d" % i, "\"q": "50%"} for i in range(len(na))],
+                                            [{"#k": "x%%y", "p": "%s"} for i in range(len(nb))])))
     out.append(("print-tie-0.0625", lambda: Table(np.array([[0.0625, 0.0], [0.0, 0.1875]]), ["a", "b"], ["x", "y"])))
     return out
 
@@ -905,11 +988,65 @@ def gen_table(rng, quick):
         spec = core.gen_spec(rng, max_n=mx, max_m=mx, classes=classes, md=True, density=dens)
     if rng.random() < 0.35:
         trick_ids(rng, spec)
+    if rng.random() < 0.3:
+        nasty_ids(rng, spec)
     if rng.random() < 0.45:
         enrich_md(rng, spec)
+    if rng.random() < 0.08:
+        partial_md(rng, spec)
+    r = rng.random()
+    if r < 0.08:
+        revalue(rng, spec, BIGINT)
+        classes = ("bigint",)
+    elif r < 0.16:
+        revalue(rng, spec, WILD)
+        classes = ("wild",)
     route = rng.choice(core.ROUTES)
     post = rng.choice(POSTS)
     return spec, route, post, classes
+
+
+# integers beyond the float32 mantissa whose sums stay exact in binary64
+BIGINT = [float(2 ** 24 + 1), float(2 ** 24 + 3), float(2 ** 31 + 7), float(2 ** 40 + 3), float(2 ** 33 - 1), -float(2 ** 25 + 1)]
+# denormals, non-dyadic fractions, huge values: sums are NOT exact, only the figures that do not add floats are judged
+WILD = [5e-324, 2.0 ** -1040, 0.1, 0.3, 1.0 / 3.0, -0.7, 1e300, 2.0 ** 53 + 2.0, 1e-7, 123456789012345.678, -1e-310]
+
+
+def revalue(rng, spec, pool):
+    spec["rows"] = [[(rng.choice(pool) if x != 0 else 0.0) for x in row] for row in spec["rows"]]
+
+
+def nasty_ids(rng, spec):
+    """ID texts that trip naive text handling ('%' forms, leading quote, U+2028/2029/0085, form feed, braces, backslash,
+    '#', blanks), NFC/NFD spellings of one text as two DISTINCT IDs of an axis, and names shared by both axes"""
+    for key in ("obs", "samp"):
+        ids = spec[key]
+        for _ in range(rng.choice([1, 1, 2])):
+            c = rng.choice(core.NASTY_TEXTS)
+            if c not in ids and len(ids):
+                ids[rng.randrange(len(ids))] = c
+        if len(ids) >= 2 and rng.random() < 0.4:
+            a, b = core.twin_ids(rng, 1)
+            if a not in ids and b not in ids:
+                i, j = rng.sample(range(len(ids)), 2)
+                ids[i], ids[j] = a, b
+    if rng.random() < 0.5 and spec["obs"] and spec["samp"]:
+        shared = rng.choice(spec["samp"])
+        if shared not in spec["obs"]:
+            spec["obs"][rng.randrange(len(spec["obs"]))] = shared      # the same name on both axes
+    assert len(set(spec["obs"])) == len(spec["obs"]) and len(set(spec["samp"])) == len(spec["samp"])
+
+
+def partial_md(rng, spec):
+    """a partially annotated axis: some IDs carry no (or fewer) categories; the metadata frame is not defined for it"""
+    for mk in ("omd", "smd"):
+        md = spec.get(mk)
+        if md and len(md) >= 2 and rng.random() < 0.7:
+            q = rng.randrange(1, len(md))
+            if rng.random() < 0.5:
+                md[q] = {}
+            elif len(md[q]):
+                md[q].pop(rng.choice(sorted(md[q])))
 
 
 def trick_ids(rng, spec):
@@ -952,12 +1089,12 @@ def from_recipe(rc):
     raise ValueError(rc)
 
 
-def run_cli(chk, t, tag, tags, rng):
+def run_cli(chk, t, tag, tags, rng, exact=True):
     inp = input_obs(t)
     fmt = rng.choice(["hdf5", "json"])
     chk.cli_rng = rng                                  # -o / stdout per call
     try:
-        chk.report(t, inp, tag, tags, fmt)
+        chk.report(t, inp, tag, tags, fmt, quals=(False, True) if exact else (True,))
     finally:
         chk.cli_rng = None
     chk.ids_cli(t, inp, tag, tags, rng.choice(["hdf5", "json"]))      # the same path, possibly the other format
@@ -1003,6 +1140,8 @@ def run(ctx):
             chk.nonzero(t, inp, "fixed:" + name, ("fixed", name))
             chk.stats(t, inp, "fixed:" + name, ("fixed", name))
             chk.frames(t, inp, "fixed:" + name, ("fixed", name))
+            chk.repr_(t, inp, "fixed:" + name, ("fixed", name))
+            chk.report(t, inp, "fixed:" + name, ("fixed", name), "api")
         # query -> in-place zeroing along the axis whose layout the table already has (and the other) -> query again
         for name in ("asym-3x4", "full-2x5"):
             for walk, axis in [("obs-walk", "observation"), ("samp-walk", "sample"), ("obs-walk", "sample"),
@@ -1045,6 +1184,33 @@ def run(ctx):
                 t = from_recipe(chk.recipe)
                 chk.export_md(t, input_obs(t), "fixed:md-numeric-text/%s/%s" % (fmt, which), ("fixed", "export"), fmt,
                               which=which)
+        # more than 512 IDs on an axis (block-wise paths): rendered in full at least once per run
+        for tk, taxis in enumerate(["observation", "sample"]):
+            k_det += 1
+            if not ctx.mine(k_det):
+                continue
+            big = ctx.rng.choice([514, 600, 1030]) if tk == 0 else ctx.rng.choice([514, 530])
+            spec = core.wide_spec(ctx.rng, n_axis=big, other=2, axis=taxis, classes=("count", "dyadic"))
+            aseed = ctx.rng.randrange(10 ** 9)
+            chk.recipe = {"kind": "spec", "spec": spec, "route": ctx.rng.choice(core.ROUTES), "post": "none", "seed": tk,
+                          "aseed": aseed}
+            ttags = ("tall", taxis, chk.recipe["route"])
+            ctx.count("tall=%s/%d" % (taxis, big))
+            t = from_recipe(chk.recipe)
+            ttag = "tall:%d:%d" % (ctx.worker[0], tk)
+            if taxis == "observation":
+                inp = chk.all_api(t, ttag, ttags, seed=aseed)
+            else:
+                # by-ID column lookups over > 512 sample IDs are costly in the driver: a selection of the groups
+                trng = random.Random(aseed)
+                for g in ["nonzero", "repr", "frames", "render", "head", "q-sum", "nnz", "density"]:
+                    inp = chk.group(t, g, ttag, ttags, trng)
+                chk.report(t, inp, ttag, ttags, "api", quals=(False,))
+            n, m = t.shape
+            for fmt in ("hdf5", "json"):
+                chk.head(from_recipe(chk.recipe), inp, "tall:%d:%d/%s" % (ctx.worker[0], tk, fmt), ttags + ("cli",), fmt,
+                         n + ctx.rng.choice([0, 1, 50]), m, to_file=fmt == "json")
+            chk.head_api(t, inp, "tall:%d:%d" % (ctx.worker[0], tk), ttags, n, m)
         # wide tables: size-dependent fast paths (>= 64 IDs on an axis)
         for wk, waxis in enumerate(["sample", "observation", "sample", "observation"]):
             k_det += 1
@@ -1074,7 +1240,7 @@ def run(ctx):
                 ctx.count("route=%s" % route)
                 ctx.count("post=%s" % post)
         # 3. random tables
-        n_tables = 220 if ctx.quick() else 10000 // ctx.worker[1]
+        n_tables = 170 if ctx.quick() else 10000 // ctx.worker[1]
         cli_share = 0.15 if ctx.quick() else 0.1
         hist_share = 0.6
         for k in range(n_tables):
@@ -1087,15 +1253,17 @@ def run(ctx):
             ctx.count("route=%s" % route)
             ctx.count("post=%s" % post)
             ctx.count("values=%s" % "+".join(classes))
-            inp = chk.all_api(t, tag, tags, seed=aseed)
+            exact = classes != ("wild",)
+            chk.recipe["exact"] = exact
+            inp = chk.all_api(t, tag, tags, seed=aseed, exact=exact)
             ctx.count("order=%s" % ("fixed" if aseed is None else "random+poke"))
             ctx.count("metadata=%s" % ("/".join(x for x in ("obs" if inp["table"]["omd"] else "",
                                                           "samp" if inp["table"]["smd"] else "") if x) or "none"))
             if rng.random() < 0.3:
                 chk.head_api(t, inp, tag, tags, rng.choice([1, 2, 3, 9]), rng.choice([1, 2, 4, 9]))
             if rng.random() < cli_share:
-                run_cli(chk, from_recipe(chk.recipe), tag, tags + ("cli",), rng)
-            if rng.random() < hist_share:
+                run_cli(chk, from_recipe(chk.recipe), tag, tags + ("cli",), rng, exact=exact)
+            if exact and rng.random() < hist_share:
                 base = chk.recipe
                 chk.history(base, rng.randrange(10 ** 9), "hist:%s%d" % (wtag, k), tags)
     finally:
@@ -1126,8 +1294,8 @@ def replay(ctx, rec):
                 chk.stats(t, inp, "replay", tags)
                 chk.frames(t, inp, "replay", tags)
             else:
-                chk.all_api(from_recipe(rc), "replay", tags, seed=rc.get("aseed"))
-                run_cli(chk, from_recipe(rc), "replay", tags, random.Random(1))
+                chk.all_api(from_recipe(rc), "replay", tags, seed=rc.get("aseed"), exact=rc.get("exact", True))
+                run_cli(chk, from_recipe(rc), "replay", tags, random.Random(1), exact=rc.get("exact", True))
                 t = from_recipe(rc)
                 inp = input_obs(t)
                 for n, m in [(1, 1), (2, 3), (9, 9), (0, 1)]:
